@@ -484,6 +484,9 @@ class RaggedView2:
                               np.maximum(0, (stop-start+(col_slice.step-1))//col_slice.step),
                               self.col_step*col_slice.step)
 
+    def _clamp_bound(self, bound, limit):
+        return None if bound is None else max(-limit, min(limit, bound))
+
     def col_slice(self, col_slice):
         if isinstance(col_slice, Number):
             idx = col_slice
@@ -496,6 +499,11 @@ class RaggedView2:
                                   np.ones_like(self.lengths))
 
         # starts, lengths, col_step = (self.starts, self.lengths, self.col_step)
+        # bounds and steps beyond the longest row select what that row's length + 1 selects: clamping them first
+        # keeps the arithmetic below inside the index dtype, whatever its width
+        limit = int(np.max(self.lengths)) + 1 if len(self.lengths) else 1
+        col_slice = slice(self._clamp_bound(col_slice.start, limit), self._clamp_bound(col_slice.stop, limit),
+                          self._clamp_bound(col_slice.step, limit))
         step = 1 if col_slice.step is None else col_slice.step
         if step > 0:
             return self._pos_col_slice(slice(col_slice.start, col_slice.stop, step))
